@@ -32,8 +32,8 @@ add('C02', ['C02', 'C02S', 'C02N', 'C02L'], 'exploration',
 add('C03', ['C03', 'C03F', 'C03L'], 'exploration',
     "Stage 1: same cluster executions; at the instant a follower hands Ack(o) to a term-T stream its synced log must equal the term-T leader's log at every offset <= o (shadow logs recorded at the WAL seam); committed prefixes of all replicas are compared with the final leader at the end. Stage 2: explicit-state search of the follower as a protocol state machine (every sequence of 13 protocol events - new-term requests, appends of current / stale terms, truncation and its re-delivery, complete / interrupted / stale-term snapshot transfers, restart, crash - up to the depth, on a real follower controller): acknowledged entries stay stored with their leader's entry, the database is the fold of what the node holds.",
     "DESIGN.md §3 C03, §7", CLUSTER_NOTE, T_SCHED + " + " + T_FSM, 'sched+fsm')
-add('C04', ['C04', 'C04F', 'C04N'], 'exploration',
-    "Stage 1: stateless exploration of NewTerm(T+1) racing with in-flight client writes on a real leader controller (RF=3, acknowledging scripted followers) and with in-flight appends and pending WAL syncs on a real follower controller: every schedule with <=2 (thorough <=3) non-default scheduling choices at every lock/atomic/channel point; reported head == end of the node's log at quiescence, no ack / acknowledged write beyond the reported head, old-term writes and appends refused after the answer. Stage 2: explicit-state search of the follower as a protocol state machine (13 protocol events, see C03): no acknowledgement, append, truncation or snapshot of an older term changes a fenced node; the reported head is the end of its log.",
+add('C04', ['C04', 'C04S', 'C04F', 'C04N'], 'exploration',
+    "Stage 1: stateless exploration of NewTerm(T+1) racing with in-flight client writes on a real leader controller (RF=3, acknowledging scripted followers) and with in-flight appends and pending WAL syncs on a real follower controller: every schedule with <=2 (thorough <=3) non-default scheduling choices at every lock/atomic/channel point; reported head == end of the node's log at quiescence, no ack / acknowledged write beyond the reported head, old-term writes and appends refused after the answer. Schedule stage on the follower alone (h/c04s): one in-flight request of the deposed leader (append, truncation, start of a snapshot transfer) racing with NewTerm on a follower holding three acknowledged entries; whichever is served first, the log must end where the NewTerm answer said. Stage 2: explicit-state search of the follower as a protocol state machine (13 protocol events, see C03): no acknowledgement, append, truncation or snapshot of an older term changes a fenced node; the reported head is the end of its log.",
     "DESIGN.md §3 C04", SCHED_NOTE + " Peers are scripted; the director path is exercised by the cluster harness of C05.", T_SCHED + " + " + T_FSM, 'sched+fsm')
 add('C05', ['C05', 'C05F', 'C05N'], 'exploration',
     "Cluster harness with election-safety monitors evaluated at every scheduling point and at every coordination RPC (scenarios as C01 plus lost BecomeLeader answer and coordinator crash right after BecomeLeader): at most one LEADER per term and at most one node told to lead a term; node terms never decrease (also across crash+restart on the crash-simulating FS); every NewTerm/BecomeLeader carries a term that is durable in the metadata store and not below any term sent before (also across coordinator crash+restart); BecomeLeader only after a fenced majority, to an ensemble member whose head is maximal among the fenced ensemble members, with followers from the stored ensemble only. Stage 2 (node side): explicit-state search of the follower as a protocol state machine (13 protocol events, see C03): the term a node has answered for never decreases across restarts, crashes and snapshot transfers.",
